@@ -43,6 +43,12 @@ func init() {
 				add("hashmap-s1-batch-k2", merge(base, p("k", 2, "ops", opPut|opDelete|opBatch, "bmax", 2, "index", 3, "shards", 1, "vlens", 2)))
 				add("btree-s1-merge-k3", merge(base, p("k", 3, "ops", opPut|opDelete|opMerge, "index", 1, "shards", 1)))
 				add("skiplist-s1-sync-always-k3", merge(base, p("k", 3, "ops", opPut|opDelete, "index", 2, "shards", 1, "sync", 1, "vlens", 2)))
+				// concrete key families around representation boundaries (see kit.go vConcreteKeyFamilies)
+				for fam := 1; fam <= 4; fam++ {
+					add(fmt.Sprintf("skiplist-s1-keyfamily%d-k3", fam), merge(base, p("ckeys", fam, "k", 3, "ops", opPut|opDelete, "index", 2, "shards", 1, "vlens", 1)))
+				}
+				add("btree-s2-keyfamily1-k3", merge(base, p("ckeys", 1, "k", 3, "ops", opPut|opDelete, "index", 1, "shards", 2, "vlens", 1)))
+				add("hashmap-s3-keyfamily2-k3", merge(base, p("ckeys", 2, "k", 3, "ops", opPut|opDelete, "index", 3, "shards", 3, "vlens", 1)))
 				add("btree-s3-sync-threshold-mmap-k2", merge(base, p("k", 2, "ops", opPut|opDelete, "index", 1, "shards", 3, "sync", 2, "io", 1, "vlens", 2)))
 			} else {
 				for idx := 1; idx <= 3; idx++ {
@@ -112,7 +118,7 @@ func init() {
 	register(&CheckDef{
 		ID:    "C02",
 		Title: "Clean restart preserves the exact key-value mapping, under any configuration",
-		Reach: []string{"done", "rotated", "restarted", "restarted-twice", "batch-committed", "merged"},
+		Reach: []string{"done", "rotated", "restarted", "restarted-twice", "batch-committed", "merged", "many-files"},
 		Jobs: func(tier string) []JobSpec {
 			var js []JobSpec
 			add := func(name string, params map[string]int64) {
@@ -130,6 +136,8 @@ func init() {
 				add("mmap-to-std-k2-k1", merge(base, p("k", 2, "k2", 1, "ops", opPut|opDelete, "index", 3, "shards", 1, "io", 1, "r_io", 1)))
 				add("std-to-mmap-k2-k1", merge(base, p("k", 2, "k2", 1, "ops", opPut|opDelete, "index", 3, "shards", 1, "io", 0, "r_io", 2)))
 				add("merge-k3", merge(base, p("k", 3, "k2", 1, "ops", opPut|opDelete|opMerge, "vlens", 2, "index", 1, "shards", 1)))
+				// 12 data files (ids 0..11) before the history: file-name parsing, id ordering, two-digit ids
+				add("twelve-files-k2-k1", merge(base, p("fill", 12, "k", 2, "k2", 1, "ops", opPut|opDelete, "vlens", 1, "index", 3, "shards", 1, "dfs_lo", 20, "dfs_hi", 20)))
 			} else {
 				add("end-offsets-std", merge(base, p("k", 1, "ops", opPut, "vlens", 4, "vbig2", -100, "index", 3, "shards", 1)))
 				add("end-offsets-mmap", merge(base, p("k", 1, "ops", opPut, "vlens", 4, "vbig2", -100, "index", 3, "shards", 1, "io", 1, "r_io", 1)))
@@ -177,6 +185,11 @@ func init() {
 				add("btree-s2-rev-late", p("calls", 3, "pool", 2, "klen", 1, "index", 1, "shards", 2, "reverse", 1, "latewrites", 1), 0)
 				add("hashmap-s3-prefix", p("calls", 2, "pool", 2, "klen", 2, "index", 3, "shards", 3, "prefix", 1), 0)
 				add("skiplist-s1-rev", p("calls", 3, "pool", 3, "klen", 1, "index", 2, "shards", 1, "reverse", 1), 0)
+				for _, fam := range []int{1, 3, 4} {
+					add(fmt.Sprintf("skiplist-s1-keyfamily%d-fwd", fam), p("calls", 3, "ckeys", fam, "index", 2, "shards", 1), 0)
+					add(fmt.Sprintf("skiplist-s2-keyfamily%d-rev", fam), p("calls", 3, "ckeys", fam, "index", 2, "shards", 2, "reverse", 1), 0)
+				}
+				add("btree-s1-keyfamily2-fwd-prefix", p("calls", 3, "ckeys", 2, "index", 1, "shards", 1, "prefix", 1), 0)
 				add("btree-s1-rev-prefix-klen3", p("calls", 2, "pool", 2, "klen", 3, "index", 1, "shards", 1, "reverse", 1, "prefix", 1), 0)
 				add("hashmap-s2-fwd-prefix-klen3", p("calls", 2, "pool", 2, "klen", 3, "index", 3, "shards", 2, "reverse", 0, "prefix", 1), 0)
 			} else {
@@ -284,7 +297,7 @@ func init() {
 	register(&CheckDef{
 		ID:    "C17",
 		Title: "Stat and space accounting are exact, and data files respect the size limit",
-		Reach: []string{"done", "oversized-file", "batch-committed", "restarted", "merged"},
+		Reach: []string{"done", "oversized-file", "batch-committed", "restarted", "merged", "many-files"},
 		Jobs: func(tier string) []JobSpec {
 			var js []JobSpec
 			add := func(name string, params map[string]int64) {
@@ -297,6 +310,7 @@ func init() {
 				add("merge-k3", merge(base, p("k", 3, "ops", opPut|opDelete|opMerge, "dfs_lo", 60, "dfs_hi", 160)))
 				add("merge-restart-k3-btree", merge(base, p("k", 3, "ops", opPut|opDelete|opMerge|opRestart, "index", 1, "dfs_lo", 60, "dfs_hi", 100, "vlens", 1)))
 				add("skiplist-s2-mmap-k2", merge(base, p("k", 2, "ops", opPut|opDelete|opRestart, "index", 2, "shards", 2, "io", 1, "dfs_lo", 60, "dfs_hi", 100)))
+				add("twelve-files-k2", merge(base, p("fill", 12, "k", 2, "ops", opPut|opDelete|opMerge|opRestart, "vlens", 1, "dfs_lo", 20, "dfs_hi", 20)))
 			} else {
 				add("plain-k4", merge(base, p("k", 4, "ops", opPut|opDelete|opRestart, "vlens", 3, "vbig", 25, "dfs_lo", 40, "dfs_hi", 160)))
 				add("batch-k3", merge(base, p("k", 3, "ops", opPut|opDelete|opBatch|opRestart, "bmax", 2, "dfs_lo", 60, "dfs_hi", 160)))
@@ -320,7 +334,7 @@ func init() {
 	register(&CheckDef{
 		ID:    "C06",
 		Title: "Merge preserves every key's value and actually reclaims the garbage",
-		Reach: []string{"done", "merge-done", "merged-record-checked", "fewer-files-out", "batch-committed", "second-generation"},
+		Reach: []string{"done", "merge-done", "merged-record-checked", "fewer-files-out", "batch-committed", "second-generation", "many-files"},
 		Jobs: func(tier string) []JobSpec {
 			var js []JobSpec
 			add := func(name string, params map[string]int64) {
@@ -334,6 +348,7 @@ func init() {
 				add("btree-mmap-k2", merge(base, p("k", 2, "ops", opPut|opDelete, "index", 1, "io", 1, "post", 1)))
 				add("second-generation-k2", merge(base, p("premerge", 2, "k", 2, "ops", opPut|opDelete, "vlens", 1)))
 				add("skiplist-s2-k2", merge(base, p("k", 2, "ops", opPut|opDelete, "index", 2, "shards", 2, "post", 1)))
+				add("twelve-files-k1", merge(base, p("fill", 12, "k", 1, "ops", opPut|opDelete, "vlens", 1, "dfs_lo", 20, "dfs_hi", 20, "post", 1)))
 			} else {
 				add("plain-k4-post", merge(base, p("k", 4, "ops", opPut|opDelete, "post", 1)))
 				add("plain-k4-permute-big", merge(base, p("k", 4, "ops", opPut|opDelete, "vlens", 3, "vbig", 25, "permute", 1)))
@@ -378,6 +393,7 @@ func init() {
 				add("threshold-k3", merge(base, p("k", 3, "ops", opPut|opDelete, "sync", syncThreshold, "vlens", 1)))
 				add("batch-k1", merge(base, p("k", 1, "ops", opBatch, "vlens", 1)))
 				add("always-batch-rot-k3", merge(base, p("k", 3, "ops", opPut|opBatch, "bmax", 1, "vlens", 1, "sync", syncAlways, "dfs_lo", 130, "dfs_hi", 160)))
+				add("batch-overflow-bmax3", merge(base, p("preput", 1, "k", 1, "ops", opBatch, "bmax", 3, "vlens", 1, "dfs_lo", 120, "dfs_hi", 160, "powerloss", 0, "after", 1)))
 				add("mmap-process-death-k2", merge(base, p("k", 2, "ops", opPut|opDelete, "io", 1, "powerloss", 0, "after", 1, "dfs_lo", 60, "dfs_hi", 100)))
 				add("btree-s2-nosync-k2", merge(base, p("k", 2, "ops", opPut|opDelete|opSync, "after", 1, "index", 1, "shards", 2, "vlens", 1)))
 				add("skiplist-s3-always-k2", merge(base, p("k", 2, "ops", opPut|opDelete, "sync", syncAlways, "index", 2, "shards", 3, "vlens", 1, "after", 1)))
@@ -464,6 +480,7 @@ func init() {
 				add("k3-permute-3files", merge(base, p("k", 3, "ops", opPut|opDelete, "dfs_lo", 60, "dfs_hi", 66, "permute", 1, "crash2", 0)))
 				add("k2-crashed-merge-then-merge", merge(base, p("k", 2, "ops", opPut, "dfs_lo", 60, "dfs_hi", 100, "crash2", 0, "aftermerge", 1, "tailops", opMerge)))
 				add("k2-btree-s2-mmap", merge(base, p("k", 2, "ops", opPut|opDelete, "dfs_lo", 60, "dfs_hi", 100, "crash2", 0, "index", 1, "shards", 2, "io", 1)))
+				add("second-generation-k1", merge(base, p("preput", 2, "premerge", 1, "k", 1, "ops", opPut|opDelete, "dfs_lo", 60, "dfs_hi", 100, "crash2", 0)))
 			} else {
 				add("k3-rot", merge(base, p("k", 3, "ops", opPut|opDelete, "dfs_lo", 60, "dfs_hi", 130)))
 				add("k2-batch", merge(base, p("k", 2, "ops", opPut|opBatch, "bmax", 1, "dfs_lo", 100, "dfs_hi", 150)))
@@ -472,6 +489,7 @@ func init() {
 				add("k3-crashed-merge-then-merge", merge(base, p("k", 3, "ops", opPut|opDelete, "dfs_lo", 60, "dfs_hi", 100, "crash2", 0, "aftermerge", 1, "tailops", opMerge)))
 				add("k2-crashed-merge-then-merge-crash2", merge(base, p("k", 2, "ops", opPut, "dfs_lo", 60, "dfs_hi", 100, "aftermerge", 1, "tailops", opMerge|opRestart)))
 				add("k3-permute-3files-crash2", merge(base, p("k", 3, "ops", opPut|opDelete, "dfs_lo", 60, "dfs_hi", 66, "permute", 1)))
+				add("second-generation-k2-crash2", merge(base, p("preput", 2, "premerge", 1, "k", 2, "ops", opPut|opDelete, "dfs_lo", 60, "dfs_hi", 100)))
 			}
 			js = append(js, JobSpec{Name: "witness", Harness: "root", Func: "verifHarnessCrash", Params: merge(base, p("k", 1, "ops", opPut, "witness", 1, "crash2", 0)), Scale: scaleDF(32), Witness: true})
 			return js
@@ -718,6 +736,10 @@ func init() {
 				add("list-restart-k4", p("k", 4, "keys", 1, "cmds", cLPush|cLPop|cDel|cRestart))
 				add("zset-btree-k3", p("k", 3, "keys", 1, "cmds", cZAdd|cZScore|cDel, "index", 1, "nscores", 2))
 				add("set-type-k3", p("k", 3, "keys", 1, "cmds", cSAdd|cSRem|cSIsMember|cDel|cType|cSet))
+				// empty values and the empty field/member name are values/names like any other
+				add("hash-empty-values-k3", p("k", 3, "keys", 1, "cmds", cHSet|cHGet|cHDel, "vlen0", 1, "elen0", 1))
+				add("string-list-empty-values-k3", p("k", 3, "keys", 1, "cmds", cSet|cGet|cLPush|cLPop|cDel, "vlen0", 1))
+				add("set-zset-empty-member-k3", p("k", 3, "keys", 1, "cmds", cSAdd|cSRem|cSIsMember|cZAdd|cZScore, "elen0", 1, "nscores", 1))
 				// delete + re-create across a restart (a re-created key must start empty)
 				add("hash-del-restart-k4", p("k", 4, "keys", 1, "cmds", cHSet|cHGet|cDel|cRestart))
 				add("set-del-restart-k4", p("k", 4, "keys", 1, "cmds", cSAdd|cSIsMember|cDel|cRestart))
